@@ -73,8 +73,25 @@ Definition run_opname (n : N) : string :=
   if (1 <=? n)%N && (n <=? 75)%N then out3 "PUSH" "PUSH" "-"
   else out3 (render Gen.Opcodes_gen.opcode_table) (render opcode_spec_table) "-".
 
+(* other public routes to the same bytes: get_script_length, to_hex, from_hex, from_script_bits(to_script_bits).
+   Output: OK:<get_script_length>;<to_hex = hex(to_bytes)><from_hex(hex input) gives the same script><rebuilt from its
+   own bits gives the same bytes>.  Implementation: every route goes through the one serialiser/parser of the model.
+   Specification: for a script of the property's domain the length is the input's and the three flags are 1. *)
+Definition run_routes (bs : bytes) : string :=
+  let impl := match from_bytes bs with
+              | Ok s => "OK:" +++ dec_of_N (N.of_nat (length (to_bytes s))) +++ ";111"
+              | Err => "ERR" | Panic => "PANIC" end in
+  match tokenize_spec bs with
+  | TokOk ts =>
+      if balanced ts then out3 impl ("OK:" +++ dec_of_N (N.of_nat (length bs)) +++ ";111") "-"
+      else out3 impl "ERR" "-"
+  | TokBad => out3 impl "ERR" "-"
+  | TokTruncDirect => out3 impl "ERR" "truncated-direct-push"
+  end.
+
 Definition run (op : string) (args : list string) : string :=
   match op, args with
+  | "script.routes", [a] => match expand a with Some bs => run_routes bs | None => "BADARG" end
   | "script.parse", [a] => match expand a with Some bs => run_parse bs | None => "BADARG" end
   | "script.encode_pushdata", [a] => match expand a with Some bs => run_encode bs | None => "BADARG" end
   | "script.opname", [a] => match N_of_dec a with Some n => if (n <? 256)%N then run_opname n else "BADARG" | None => "BADARG" end
